@@ -126,7 +126,8 @@ package p9
 
 //@ define Ifid(cs *connState) bool = forall(k, fid, has(cs.fids, k) ==> cs.fids[k] != nil && cs.fids[k].server == cs.server)
 // path nodes: no nil child, no node is its own child (locking child after parent is acyclic)
-//@ define Inodes() bool = forall(pn, *pathNode, forall(k, string, has(pn.childNodes, k) ==> pn.childNodes[k] != nil && pn.childNodes[k] != pn))
+// (and no two nodes share one childNodes map object)
+//@ define Inodes() bool = forall(pn, *pathNode, forall(k, string, has(pn.childNodes, k) ==> pn.childNodes[k] != nil && pn.childNodes[k] != pn)) && forall(a, *pathNode, forall(b, *pathNode, a != b ==> a.childNodes != b.childNodes))
 // references: a child belongs to its parent's server; a live path lies below live paths only
 //@ define Irefs() bool = forall(r, *fidRef, r != nil && r.parent != nil ==> r.parent.server == r.server && (!fenced(r) ==> !fenced(r.parent)))
 //@ define sameFids(cs *connState) bool = forall(k, fid, has(cs.fids, k) == old(has(cs.fids, k)) && cs.fids[k] == old(cs.fids[k]))
@@ -142,6 +143,7 @@ package p9
 //@ func (*connState).InsertFID
 //@   requires[C05,C15] owedNonNeg()
 //@   requires[C15,C16] held(cs.fidMu) == 0
+//@   requires[C06,C16] @no-child-lock-held forall(pn, *pathNode, held(pn.childMu) == 0)
 //@   requires[C04] newRef != nil && newRef.server == cs.server
 //@   requires[C04] Ifid(cs)
 //@   ensures[C04] Ifid(cs)
@@ -150,7 +152,7 @@ package p9
 //@   ensures[C09] InamesSafe()
 //@   panic_ensures[C09] InamesSafe()
 //@   ensures[C04,C03] nocalls()
-//@   modifies mapof(cs.fids), type:fidRef.refs, maps(map[*fidRef]string), maps(map[string]map[*fidRef]struct{}), maps(map[*fidRef]struct{}), $n.File.Close, $owed, $own
+//@   modifies mapof(cs.fids), type:fidRef.refs, maps(map[*fidRef]string), maps(map[string]map[*fidRef]struct{}), maps(map[*fidRef]struct{}), $n.File.Close, $closeerr, $owed, $own
 //@   ensures[C05,C15] @references-balanced sameOwed()
 //@   panic_ensures[C05,C15] @references-balanced-on-panic sameOwed()
 //@   ensures[C05,C15] @no-file-leaked sameOwn()
@@ -163,6 +165,7 @@ package p9
 //@ func (*connState).DeleteFID
 //@   requires[C05,C15] owedNonNeg()
 //@   requires[C15,C16] held(cs.fidMu) == 0
+//@   requires[C06,C16] @no-child-lock-held forall(pn, *pathNode, held(pn.childMu) == 0)
 //@   requires[C04] Ifid(cs)
 //@   ensures[C04] Ifid(cs)
 //@   panic_ensures[C04] Ifid(cs)
@@ -170,7 +173,7 @@ package p9
 //@   requires[C09] InamesSafe()
 //@   ensures[C09] InamesSafe()
 //@   panic_ensures[C09] InamesSafe()
-//@   modifies mapof(cs.fids), type:fidRef.refs, maps(map[*fidRef]string), maps(map[string]map[*fidRef]struct{}), maps(map[*fidRef]struct{}), $n.File.Close, $owed, $own
+//@   modifies mapof(cs.fids), type:fidRef.refs, maps(map[*fidRef]string), maps(map[string]map[*fidRef]struct{}), maps(map[*fidRef]struct{}), $n.File.Close, $closeerr, $owed, $own
 //@   ensures[C05,C15] @references-balanced sameOwed()
 //@   panic_ensures[C05,C15] @references-balanced-on-panic sameOwed()
 //@   ensures[C05,C15] @no-file-leaked sameOwn()
@@ -182,20 +185,55 @@ package p9
 //@   panic_ensures[C04,C15] @unbinds-on-panic !has(cs.fids, fid)
 //@   maypanic
 
+// TryIncRef: takes a reference unless the count already reached zero (the
+// object is then being destroyed and must not be resurrected)
+//@ func (*fidRef).TryIncRef
+//@   requires[C05,C16] @count-below-max f.refs < 9223372036854775807
+//@   modifies f.refs, $owed
+//@   loop 0 invariant[C05,C16] f.refs == old(f.refs) && sameOwed()
+//@   ensures[C05,C16] @never-resurrects result <==> old(f.refs) > 0
+//@   ensures[C05,C16] @takes-one-reference result ==> f.refs == old(f.refs) + 1 && owed(f) == old(owed(f)) + 1 && sameOwed(f)
+//@   ensures[C05,C16] @no-effect-when-dead !result ==> f.refs == old(f.refs) && sameOwed()
+//@   nopanic
+
 // DecRef: drops one reference; at zero closes the file (backend call, may
 // fail or panic), unregisters from the parent's path node and drops the
 // parent reference. It never touches a fid table, the opened/mode/file fields
 // or the deleted marks, and leaves the lock state as it found it.
+// Proved against the body (recursion through the callee's own contract).
+// Assumed, and listed in the evidence:
+//  - the File of an existing reference is owned by it and still open
+//    (own == 2) when the count reaches zero: global counting argument, on paper;
+//  - no childMu of a proper ancestor's node is held by the caller (the tree is
+//    acyclic; callers hold at most the childMu of nodes at or below f's own).
 //@ func (*fidRef).DecRef
-//@   abstract
 //@   requires[C09] InamesSafe()
 //@   ensures[C09] InamesSafe()
 //@   panic_ensures[C09] InamesSafe()
 //@   requires[C05,C15] @holds-a-reference owed(f) >= 1
-//@   modifies type:fidRef.refs, maps(map[*fidRef]string), maps(map[string]map[*fidRef]struct{}), maps(map[*fidRef]struct{}), $n.File.Close, $owed, $own
+//@   requires[C05,C15] owedNonNeg()
+//@   ensures[C05] @closed-files-stay-closed forall(x, File, old(own(x)) == 3 ==> own(x) == 3)
+//@   ensures[C05] @close-count-monotone ncalls("File.Close") >= old(ncalls("File.Close"))
+//@   requires[C06,C16] @parent-node-child-lock-free f.parent != nil ==> held(f.parent.pathNode.childMu) == 0
+//@   modifies type:fidRef.refs, maps(map[*fidRef]string), maps(map[string]map[*fidRef]struct{}), maps(map[*fidRef]struct{}), $n.File.Close, $closeerr, $owed, $own
 //@   ensures[C05,C15] owed(f) == old(owed(f)) - 1 && sameOwed(f)
 //@   panic_ensures[C05,C15] owed(f) == old(owed(f)) - 1 && sameOwed(f)
 //@   ensures[C05,C15] sameOwn()
+//@   at File.Close presume own(recv) == 2
+//@   at File.Close requires[C05] @closes-its-own-file-only-at-zero recv == f.file && f.refs == 0
+//@   at (*pathNode).removeChild requires[C05,C08] @unregisters-only-at-zero recv == f.parent.pathNode && arg0 == f && f.refs == 0
+//@   at (*fidRef).DecRef ghost owed recv += 1
+//@   at (*fidRef).DecRef presume recv.parent != nil ==> held(recv.parent.pathNode.childMu) == 0
+//@   at (*fidRef).DecRef requires[C05] @drops-parent-only-at-zero recv == f.parent && f.refs == 0
+//@   ensures[C05] @live-reference-closes-nothing old(f.refs) != 1 ==> nocalls() && result == nil && ghost("$closeerr", error) == old(ghost("$closeerr", error))
+//@   ensures[C05] @last-reference-closes-the-file old(f.refs) == 1 ==> ncalls("File.Close") >= old(ncalls("File.Close")) + 1 && own(f.file) == 3
+//@   ensures[C05] @count-decremented f.refs == old(f.refs) - 1
+//@   at fmt.Errorf assume (arg0 == "file: %w" || arg0 == "parent: %w") && len(arg1) == 1 ==> errno(ret0) == errno(arg1[0])
+//@   at errors.Join assume (len(arg0) == 0 ==> ret0 == nil) && (len(arg0) >= 1 ==> ret0 != nil) && (len(arg0) == 1 ==> errno(ret0) == errno(arg0[0]))
+//@   ensures[C03,C15] @close-error-reported ncalls("File.Close") == old(ncalls("File.Close")) + 1 && ghost("$closeerr", error) != nil ==> result != nil && errno(result) == errno(ghost("$closeerr", error))
+//@   ensures[C03,C15] @no-error-invented ncalls("File.Close") == old(ncalls("File.Close")) + 1 && ghost("$closeerr", error) == nil ==> result == nil
+//@   ensures[C15,C16] samelocks()
+//@   panic_ensures[C15,C16] samelocks()
 //@   maypanic
 
 // ---- File interface: what the server must guarantee at every call -------------
@@ -247,6 +285,7 @@ package p9
 //@ interface File.Close
 //@   requires[C05,C15] @closes-only-what-it-owns own(recv) == 1 || (bound(recv) && refof(recv).refs == 0 && own(recv) == 2)
 //@   ghost own recv = 3
+//@   ghost set $closeerr:error = result
 //@   panic_ensures own(recv) == 3
 //@   maypanic
 //@ interface File.Open
@@ -440,7 +479,7 @@ package p9
 //@   ensures[C09] @names-stay-safe InamesSafe()
 //@   panic_ensures[C09] InamesSafe()
 //@   requires[C04] Ifid(cs)
-//@   modifies type:fidRef.refs, maps(map[*fidRef]string), maps(map[string]map[*fidRef]struct{}), maps(map[*fidRef]struct{}), $ncalls, $n.*, $lasterr, $ret.*, $owed, $own
+//@   modifies type:fidRef.refs, maps(map[*fidRef]string), maps(map[string]map[*fidRef]struct{}), maps(map[*fidRef]struct{}), $ncalls, $n.*, $lasterr, $closeerr, $ret.*, $owed, $own
 //@   ensures[C15] @locks-released nolocks()
 //@   panic_ensures[C15] @locks-released-on-panic nolocks()
 
@@ -574,16 +613,51 @@ package p9
 //@   maypanic
 //@   panic_ensures[C15,C16] samelocks()
 
-//@ func (*pathNode).addChild
-//@   abstract
+// registration of a reference under a name (childRefNames is the authority for
+// nameFor; childRefs is the reverse index): proved against the bodies
+//@ group registers
 //@   requires[C05,C08,C15] @not-yet-registered !has(p.childRefNames, ref)
-//@   requires[C15,C16] held(p.childMu) == 0
 //@   requires[C09] safe(name)
+//@   requires[C09] InamesSafe()
+//@   ensures[C09] InamesSafe()
+//@   modifies mapof(p.childRefNames), mapof(p.childRefs), maps(map[*fidRef]struct{})
+//@   ensures[C08,C09] @registered-under-name has(p.childRefNames, ref) && p.childRefNames[ref] == name
+//@   ensures[C08,C09] @others-keep-their-names forall(r, *fidRef, r != ref ==> has(p.childRefNames, r) == old(has(p.childRefNames, r)) && p.childRefNames[r] == old(p.childRefNames[r]))
+//@   ensures[C15,C16] samelocks()
+//@   nopanic
+
+//@ func (*pathNode).addChildLocked
+//@   requires[C15,C16] held(p.childMu) == -1
+//@   use registers
+
+//@ func (*pathNode).addChild
+//@   requires[C15,C16] held(p.childMu) == 0
+//@   use registers
+
+//@ func (*pathNode).removeChild
+//@   requires[C15,C16] held(p.childMu) == 0
 //@   requires[C09] InamesSafe()
 //@   ensures[C09] InamesSafe()
 //@   panic_ensures[C09] InamesSafe()
 //@   modifies mapof(p.childRefNames), mapof(p.childRefs), maps(map[*fidRef]struct{})
-//@   nopanic
+//@   ensures[C08] @unregistered !has(p.childRefNames, ref)
+//@   ensures[C08,C09] @others-keep-their-names forall(r, *fidRef, r != ref ==> has(p.childRefNames, r) == old(has(p.childRefNames, r)) && p.childRefNames[r] == old(p.childRefNames[r]))
+//@   ensures[C15,C16] samelocks()
+//@   panic_ensures[C15,C16] samelocks()
+//@   maypanic
+
+//@ func (*pathNode).addPathNodeFor
+//@   requires[C15,C16] held(p.childMu) == 0
+//@   requires[C07,C08,C16] Inodes()
+//@   requires[C07,C08,C16] @no-nil-no-self-child pn != nil && pn != p
+//@   modifies mapof(p.childNodes)
+//@   ensures[C08] @installed has(p.childNodes, name) && p.childNodes[name] == pn
+//@   ensures[C08] @other-names-untouched forall(k, string, k != name ==> has(p.childNodes, k) == old(has(p.childNodes, k)) && p.childNodes[k] == old(p.childNodes[k]))
+//@   ensures[C07,C08,C16] Inodes()
+//@   ensures[C15,C16] samelocks()
+//@   panic_ensures[C15,C16] samelocks()
+//@   panic_ensures[C07,C08,C16] Inodes()
+//@   maypanic
 
 // markChildDeleted / renameChildTo walk the tree below the entry (unbounded
 // recursion, loops over maps being mutated): contracts assumed, see DESIGN.md.
@@ -610,7 +684,7 @@ package p9
 //@   requires[C07,C08] Irefs()
 //@   ensures[C07,C08] Irefs()
 //@   panic_ensures[C07,C08] Irefs()
-//@   modifies type:pathNode.deleted, type:fidRef.parent, type:fidRef.refs, maps(map[string]*pathNode), maps(map[*fidRef]string), maps(map[string]map[*fidRef]struct{}), maps(map[*fidRef]struct{}), $n.File.Renamed, $n.File.Close, $ncalls
+//@   modifies type:pathNode.deleted, type:fidRef.parent, type:fidRef.refs, maps(map[string]*pathNode), maps(map[*fidRef]string), maps(map[string]map[*fidRef]struct{}), maps(map[*fidRef]struct{}), $n.File.Renamed, $n.File.Close, $closeerr, $ncalls
 //@   maypanic
 
 //@ guard fidRef.opened[C07,C16] read readLocked(r) write writeLocked(r)
@@ -788,7 +862,7 @@ package p9
 //@   requires[C07] @from-read-locked bound(from) ==> readLocked(refof(from))
 //@   requires[C08] @from-not-fenced bound(from) && len(names) > 0 ==> !fenced(refof(from))
 //@   requires[C09] @component-safe len(names) == 1 ==> safe(names[0])
-//@   modifies arrays(QID), $ncalls, $n.*, $lasterr, $ret.*, $own
+//@   modifies arrays(QID), $ncalls, $n.*, $lasterr, $closeerr, $ret.*, $own
 //@   requires[C05] @from-not-closed own(from) != 3
 //@   ensures[C05,C15] @returns-owned-file result4 == nil ==> own(result1) == 1
 //@   ensures[C05,C15] @no-other-file-left-open sameOwn(result1)
@@ -945,6 +1019,7 @@ package p9
 //@ ghostvar $ret.File File
 //@ ghostvar $ret.n int
 //@ ghostvar $lasterr error
+//@ ghostvar $closeerr error
 //@ ghostvar $curTag tag
 
 // ---- transport as seen by the server loop (bodies: see the codec section) ----------
